@@ -8,6 +8,9 @@ require (
 	github.com/pion/rtp v1.10.5
 )
 
-require github.com/pion/randutil v0.1.0 // indirect
+require (
+	github.com/bluenviron/mediacommon/v2 v2.9.3 // indirect
+	github.com/pion/randutil v0.1.0 // indirect
+)
 
 replace github.com/bluenviron/gortsplib/v5 => /repo
